@@ -100,6 +100,26 @@ def _is_authorized_type(tpe: Type[Any], gctx: EvalMainContext) -> bool:
         raise DDSException(msg, DDSErrorCode.AUTHORIZED_TYPE_NOT_UNDERSTOOD)
 
 
+def unwrapped_function(obj: Any) -> Any:
+    """
+    The function behind an object that wraps it following the functools conventions (the result of
+    functools.lru_cache or functools.cache for instance): the code that runs is the code of that function.
+    Anything else is returned as it is.
+    """
+    if (
+        not isinstance(obj, (FunctionType, ModuleType, type))
+        and callable(obj)
+        and hasattr(obj, "__wrapped__")
+    ):
+        try:
+            f = inspect.unwrap(obj)
+        except ValueError:
+            return obj
+        if isinstance(f, FunctionType):
+            return f
+    return obj
+
+
 class ObjectRetrieval(object):
     @classmethod
     def retrieve_object(
@@ -313,7 +333,7 @@ class ObjectRetrieval(object):
                 f"The other keys of that module are: {mod_keys}.",
                 DDSErrorCode.OBJECT_PATH_NOT_FOUND,
             )
-        obj = context_mod.__dict__[fname]
+        obj = unwrapped_function(context_mod.__dict__[fname])
         if debug:
             _logger.debug(
                 f"_retrieve_object_rec: {local_path} {context_mod} {type(obj)} {obj}"
